@@ -2,7 +2,9 @@
 import parseprops, parsecase, dump
 from common import show_str
 
-THEOREMS = []
+THEOREMS = ['Pylx.C06_total', 'Pylx.C06_total_list', 'Pylx.C06_agree', 'Pylx.C06_agree_top', 'Pylx.C06_prefix', 'Pylx.C06_prefix_top', 'Pylx.run_mono',
+            'Pylx.run_adv', 'Pylx.run_nf', 'Pylx.C06_no_fuel', 'Pylx.C06_no_perr', 'Pylx.C06_reader_monotone', 'Pylx.C05_tolerant_total']
+PROOF_MODULES = ['C06Total', 'C06', 'C05']
 RULE = ('PARSE in both modes on the same inputs: every string of <= k atoms over the LaTeX-significant alphabets (default + custom '
         'contexts), random token soups, generated documents followed by stray closing tokens and garbage; model vs implementation in '
         'tolerant mode (full tree); oracle on the implementation: tolerant parse returns (watchdog), raises nothing; if strict '
@@ -69,6 +71,14 @@ def run_impl(c):
 
 shrink_candidates = parseprops.shrink_parse_case
 
-LEVEL_TEXT = 'under construction'
-LEVEL_NOTE = 'under construction'
+LEVEL_TEXT = ('Theorems about the parser model in tolerant mode, for every closed-world context, every input and every walker start state: '
+              'C06_total — with the model\'s fuel (8·len+40, shown sufficient: the proved need is 4·len+3) the tolerant parse returns a node '
+              'list, never a parse error, another exception or fuel exhaustion (progress measure: every collector iteration and every '
+              'recovery leaves the reader at or after where it was, run_adv); C06_agree — a strict success is reproduced identically by '
+              'the tolerant parser (simulation for every task); C06_prefix — if strict fails, the nodes it had completed are continued by '
+              'the tolerant result (same nodes, the last chars node possibly extended); run_mono — results do not depend on surplus fuel. '
+              'The model is tied to the parser by comparing full tolerant tree dumps; the oracle checks totality (watchdog), strict/tolerant '
+              'equality and the prefix clause on the implementation.')
+LEVEL_NOTE = ('termination of the real code is observed with a wall-clock watchdog, proved for the model as a fuel bound; interpreter recursion limit '
+              'is outside the model; closed world of argument parsers; Lean kernel + propext/Classical.choice/Quot.sound')
 TECHNIQUE = 'Lean 4 proof (simulation strict->tolerant, fuel bound) + PARSE correspondence in both modes + prefix oracle'
